@@ -451,6 +451,24 @@ class Judge:
             return 'escape:ValueError:error-reply-too-large'
         return f'escape:{name}'
 
+    def port_case(self, data, port):
+        """a store request that is well-formed bencode but names a TCP port no peer can have: it must not become an announcement"""
+        ctx = self.ctx
+        node = Node(self.R)
+        replay = {'hex': data.hex(), 'len': len(data), 'cls': 'garbage', 'origin': 'portrange:store', 'note': f'port {port}'}
+        s0 = node.store()
+        exc = node.feed(data)
+        ctx.count(('portrange', port), nontrivial=True)
+        if exc is not None:
+            _violation(ctx, self.escape_key(exc, data), f'datagram_received(store with port {port}) did not return: {type(exc).__name__}', replay)
+            return
+        try:
+            node.settle()
+        except Exception as e:  # pylint: disable=broad-except
+            raise MachineryError(f'settling the loop after a store with port {port} failed: {e!r}')
+        if node.store() != s0:
+            _violation(ctx, 'garbage-accepted:store-with-port-out-of-range', f'a store request naming tcp port {port} was recorded as an announcement', replay)
+
     def one(self, data, cls, origin, judge='full', exp=None, note=None):
         """feed `data` (class `cls` by the specification) to a fresh node and judge the outcome"""
         ctx = self.ctx
@@ -788,6 +806,12 @@ def leg_ingress(ctx, judge):
         if fams[(c['fam'], k)] == 1:
             ctx.sample({'input': _short(data), 'family': c['fam'], 'class_by_spec': k, 'reason': c['why'],
                         'judged': c['judge']}, cap=24)
+    # the valid store request with its port replaced by integers no TCP port can be
+    if b'i3333e' in bases.get('store', b''):
+        for port in (-333, -1, 0, 65536, 70000, 2 ** 32):
+            judge.port_case(bases['store'].replace(b'i3333e', b'i%de' % port, 1), port)
+    else:
+        raise MachineryError('the base store datagram does not carry its port as i3333e')
     ctx.leg('ingress', cases=len(cases), by_family_and_class={f'{a}/{b}': n for (a, b), n in sorted(fams.items())},
             reached=reach, constants=_j(consts), wall_real_code_s=round(time.time() - t0, 1))
     return bases
